@@ -416,6 +416,7 @@ func run(c *fw.Ctx) {
 	longSplits(c, emit)
 	bigPages(c, emit)
 	midRange(c, emit)
+	permutedColumns(c)
 }
 
 // longSplits: 20-record contents whose columns are split into pages at
@@ -568,6 +569,100 @@ func midRange(c *fw.Ctx, emit func(t *sut.Target, ct content, devs []Dev, tagf s
 		}
 		emit(t, content{"mini", recs, []int{n}}, devs, fmt.Sprintf("midrange|n%d", n))
 	}
+}
+
+// permutedColumns: the file's top-level columns are in another order than
+// the fields of the reader's struct (a file written by another program for
+// the same logical schema).  Every permutation for mini (24) and flat3 (6).
+// The foreign writer gets the permuted schema and records; the generated
+// reader of the unpermuted struct must return the original records.
+func permutedColumns(c *fw.Ctx) {
+	for _, tn := range []string{"mini", "flat3"} {
+		t := sut.Get(tn)
+		root := t.Schema()
+		recs := families.MixedRecords(t, 5)
+		n := len(root.Children)
+		perm := make([]int, n)
+		for i := range perm {
+			perm[i] = i
+		}
+		var all [][]int
+		var gen func(k int)
+		gen = func(k int) {
+			if k == n {
+				all = append(all, append([]int(nil), perm...))
+				return
+			}
+			for i := k; i < n; i++ {
+				perm[k], perm[i] = perm[i], perm[k]
+				gen(k + 1)
+				perm[k], perm[i] = perm[i], perm[k]
+			}
+		}
+		gen(0)
+		for pi, pm := range all {
+			if !c.Mine() {
+				continue
+			}
+			pr := &refpq.Node{Name: root.Name, Rep: refpq.Required}
+			for _, j := range pm {
+				pr.Children = append(pr.Children, cloneNode(root.Children[j]))
+			}
+			pr.Finish()
+			precs := make([]refpq.Val, len(recs))
+			for i, r := range recs {
+				g := make([]refpq.Val, n)
+				for k, j := range pm {
+					g[k] = r.Group[j]
+				}
+				precs[i] = refpq.Val{Group: g}
+			}
+			for _, sizes := range [][]int{{5}, {3, 2}} {
+				c.Eval()
+				c.Distinct(fmt.Sprintf("perm|%s|%d|%v", tn, pi, sizes))
+				var groups [][]refpq.Val
+				p := 0
+				for _, k := range sizes {
+					groups = append(groups, precs[p:p+k])
+					p += k
+				}
+				file, err := refpq.WriteForeign(pr, buildPlan(groups, nil))
+				if err != nil {
+					panic("C04 self-check failed: permuted foreign writer: " + err.Error())
+				}
+				if pf, err := refpq.ParseFile(file, refpq.ParseOptions{}); err != nil || len(pf.Problems) > 0 {
+					panic(fmt.Sprintf("C04 self-check failed: permuted foreign file invalid: %v", err))
+				}
+				msg := ""
+				rr := drive.ReadAll(t, bytes.NewReader(file), len(recs)+8)
+				switch {
+				case rr.Panic != "":
+					msg = "panic: " + rr.Panic
+				case rr.OpenErr != nil:
+					msg = "NewParquetReader rejects a conformant file: " + rr.OpenErr.Error()
+				case rr.Err != nil:
+					msg = "Error() on a conformant file: " + rr.Err.Error()
+				default:
+					if d := drive.CompareRecords(t.Schema(), recs, rr.Snap); d != "" {
+						msg = "records differ: " + d
+					}
+				}
+				if msg != "" {
+					raw, _ := json.Marshal(map[string]interface{}{"target": tn, "permutation": pm, "row_groups": sizes})
+					c.Violate(fmt.Sprintf("%s|column order permuted|%s", tn, classify(msg)), msg+fmt.Sprintf("\nfile columns in order %v of the struct's fields, row groups %v", pm, sizes), "permuted", json.RawMessage(raw))
+				}
+			}
+		}
+	}
+}
+
+func cloneNode(n *refpq.Node) *refpq.Node {
+	c := *n
+	c.Children = nil
+	for _, ch := range n.Children {
+		c.Children = append(c.Children, cloneNode(ch))
+	}
+	return &c
 }
 
 func devKinds(devs []Dev) string {
